@@ -253,6 +253,7 @@ fn exhaustive_reencoder(ctx: &Ctx, acc_total: &mut Acc) {
         Ill16(Enc, u16),                // ill-formed classes around one surrogate value block
         SurrogateSquare(Enc, u16),      // one first surrogate unit x EVERY second surrogate unit
         Ill32(Enc, u32),
+        AfterSpecial(Enc, u32),         // every BMP character directly behind (and in front of) one special character
     }
     let mut work: Vec<W> = vec![];
     for enc in [Enc::U16Le, Enc::U16Be] {
@@ -280,6 +281,13 @@ fn exhaustive_reencoder(ctx: &Ctx, acc_total: &mut Acc) {
             work.push(W::Ill32(enc, 0xD800 + blk * 64));
         }
     }
+    // context: every BMP character directly after - and before - a character that text machinery tends to
+    // treat specially (line breaks of every kind, the byte order mark, NUL, space, quote, backslash)
+    for enc in ENCS {
+        for special in [0x0Au32, 0x0D, 0x85, 0x2028, 0x2029, 0xFEFF, 0xFFFE, 0x00, 0x20, 0x22, 0x5C, 0x2D] {
+            work.push(W::AfterSpecial(enc, special));
+        }
+    }
     let thorough = ctx.thorough();
     let acc = crate::par::run(work.len(), 1, |i, acc| {
         let variants: Vec<(usize, usize)> = if thorough { (1..=9).map(|o| (o, o)).chain([(8192, 0), (3, 64)]).collect() } else { vec![(1 + i % 7, 0), (8192, 1 + i % 9)] };
@@ -304,6 +312,30 @@ fn exhaustive_reencoder(ctx: &Ctx, acc_total: &mut Acc) {
                 }
                 // through encoding detection as well (starts with an ASCII character or a BOM)
                 reencoder_case(enc, &b, 8192, 0, true, "all_bmp_units_detected", acc);
+            }
+            W::AfterSpecial(enc, special) => {
+                let mut b = vec![];
+                let put = |u: u32, b: &mut Vec<u8>| {
+                    if enc.is16() {
+                        enc.unit16(u as u16, b);
+                    } else {
+                        enc.unit32(u, b);
+                    }
+                };
+                put(b'a' as u32, &mut b);
+                put(b'b' as u32, &mut b);
+                for u in 0u32..0x10000 {
+                    if !(0xD800..0xE000).contains(&u) {
+                        put(special, &mut b);
+                        put(u, &mut b);
+                    }
+                }
+                put(special, &mut b);
+                acc.distinct(&(enc.name(), "after_special", special));
+                acc.add("characters_in_the_context_of_a_special_one", 63488);
+                for (ic, ob) in &variants {
+                    reencoder_case(enc, &b, *ic, *ob, false, "every_character_next_to_a_special_one", acc);
+                }
             }
             W::PairsOfLead(enc, lead) => {
                 let mut b = vec![];
@@ -556,11 +588,11 @@ pub fn run(ctx: &Ctx) -> i32 {
         }
     }
     ev::run_isolated("c07-enum", &["--tier".into(), ctx.tier.clone(), "--seed".into(), ctx.seed.to_string()], "exhaustive re-encoder enumeration", &mut acc);
-    let rule = format!("(a) {} generated YAML streams (1-3 documents, hostile scalars, every spelling feature) x one encoding in turn x [BOM, no BOM when the text starts with ASCII] x [slice, reader fixed(1..9), reader random] x [explicit, detected], compared with the same text in UTF-8; texts of tens of KiB with multi-byte characters around the read sizes; 2 texts of more than a million characters (one flow sequence, one quoted scalar) x 4 encodings x [reader whole, reader 64 KiB, slice] x [detected, explicit]; one-character streams; ill-formed units behind 16 384 x k - 8 .. + 2 characters (k = 1..3) x 4 encodings x 3 bad units, at the hook with 4 / 16 / 64 KiB output buffers and through the translation (slice, reader; named, detected); (b) exhaustive at the re-encoder hook: all 63 488 non-surrogate UTF-16 units, all 1 048 576 surrogate pairs, all 1 112 064 UTF-32 scalar values, both byte orders, with/without BOM, input buffer capacities and output buffer sizes varied ({} variants each), against a std-based reference decoder; ill-formed classes: EVERY ordered pair of surrogate units that is not a well-formed pair (thorough: all 3 145 728; quick: a sixteenth of the first units x all second units), every surrogate value as lone lead / lead+non-trail / lead+lead / lone trail / reversed pair, truncated units, every UTF-32 value in D800..DFFF, values >= 0x110000; distinct non-trivial = distinct texts plus distinct enumeration blocks", n_texts, if ctx.thorough() { 11 } else { 2 });
+    let rule = format!("(a) {} generated YAML streams (1-3 documents, hostile scalars, every spelling feature) x one encoding in turn x [BOM, no BOM when the text starts with ASCII] x [slice, reader fixed(1..9), reader random] x [explicit, detected], compared with the same text in UTF-8; texts of tens of KiB with multi-byte characters around the read sizes; 2 texts of more than a million characters (one flow sequence, one quoted scalar) x 4 encodings x [reader whole, reader 64 KiB, slice] x [detected, explicit]; one-character streams; ill-formed units behind 16 384 x k - 8 .. + 2 characters (k = 1..3) x 4 encodings x 3 bad units, at the hook with 4 / 16 / 64 KiB output buffers and through the translation (slice, reader; named, detected); (b) exhaustive at the re-encoder hook: all 63 488 non-surrogate UTF-16 units, all 1 048 576 surrogate pairs, all 1 112 064 UTF-32 scalar values, both byte orders, with/without BOM, every BMP character directly behind and in front of each of 12 special characters (line breaks of every kind, U+FEFF, U+FFFE, NUL, space, quote, backslash, hyphen) in all four encodings, input buffer capacities and output buffer sizes varied ({} variants each), against a std-based reference decoder; ill-formed classes: EVERY ordered pair of surrogate units that is not a well-formed pair (thorough: all 3 145 728; quick: a sixteenth of the first units x all second units), every surrogate value as lone lead / lead+non-trail / lead+lead / lone trail / reversed pair, truncated units, every UTF-32 value in D800..DFFF, values >= 0x110000; distinct non-trivial = distinct texts plus distinct enumeration blocks", n_texts, if ctx.thorough() { 11 } else { 2 });
     let mut extra = serde_json::Map::new();
     extra.insert("reencoder_enumeration_complete".into(), json!(true));
     ev::finish(
-        Finish { ctx, level: "exploration", rule, assumptions: vec!["reference decoder: char::decode_utf16 / char::from_u32 from the standard library".into(), "for failing texts only the verdict class and prefix-comparable output are compared (error positions are byte offsets of what the parser saw)".into()], extra, exhaustive: false, min_distinct: 1000, must_reach: vec![("surrogate_pairs_enumerated".into(), 2 * 1_048_576), ("utf32_scalars_enumerated".into(), 2 * 1_112_064), ("illformed_streams".into(), 10000), ("illformed_surrogate_pairs_enumerated".into(), 100000), ("translation_level_slice".into(), 1000), ("ascii_only_texts".into(), 20), ("detected_variants".into(), 500), ("YAML_SLICE_REENCODE_PATH".into(), 500), ("texts_of_more_than_a_million_characters".into(), 8), ("illformed_deep_translation_refused".into(), 1000)] },
+        Finish { ctx, level: "exploration", rule, assumptions: vec!["reference decoder: char::decode_utf16 / char::from_u32 from the standard library".into(), "for failing texts only the verdict class and prefix-comparable output are compared (error positions are byte offsets of what the parser saw)".into()], extra, exhaustive: false, min_distinct: 1000, must_reach: vec![("surrogate_pairs_enumerated".into(), 2 * 1_048_576), ("utf32_scalars_enumerated".into(), 2 * 1_112_064), ("illformed_streams".into(), 10000), ("illformed_surrogate_pairs_enumerated".into(), 100000), ("translation_level_slice".into(), 1000), ("ascii_only_texts".into(), 20), ("detected_variants".into(), 500), ("YAML_SLICE_REENCODE_PATH".into(), 500), ("texts_of_more_than_a_million_characters".into(), 8), ("illformed_deep_translation_refused".into(), 1000), ("characters_in_the_context_of_a_special_one".into(), 48 * 63488)] },
         acc,
     )
 }
